@@ -45,6 +45,15 @@ def gen_cases(tier, seed):
     cases += [{"k": "corpus", "idx": cidx[a:a + 4]} for a in range(0, len(cidx), 4)]
     for i in range(300 if tier == "thorough" else 40):
         cases.append({"k": "generated", "i": i})
+    # batches in which the SAME text recurs with other reference times (and other golds): 43 texts of the bundled dataset do
+    bytext = {}
+    for i, e in enumerate(ds):
+        bytext.setdefault(e["text"], []).append(i)
+    rep = [v for v in bytext.values() if len(set(ds[i]["ref_time"] for i in v)) > 1]
+    for v in (rep if tier == "thorough" else rep[:15]):
+        cases.append({"k": "dataset", "idx": v[:6], "rep": True})
+    for i in range(120 if tier == "thorough" else 25):
+        cases.append({"k": "repeated", "i": i})
     for i in range(3000 if tier == "thorough" else 300):
         cases.append({"k": "monotone", "i": i})
     return cases
@@ -67,6 +76,16 @@ def setup_worker(ctx):
 
     CC.ctparse_gen = tee
     CC.tqdm = lambda x, **k: x
+
+
+def _own_candidates(L, text, ts, **kw):
+    """the candidates of one entry, from our own call of the real stream with the builder's arguments (independent of
+    which streams the builder chose to consume)"""
+    out = []
+    for p in L.m.ctparse_gen(text, ts, **kw):
+        if p is not None:
+            out.append((V.val(p.resolution), type(p.resolution).__name__, [str(x) for x in p.production]))
+    return out
 
 
 def _expected_samples(cands, is_pos):
@@ -99,14 +118,14 @@ def run_case(case, ctx):
         ds = _dataset()
         raw = [ds[i] for i in case["idx"]]
         entries = [CC.TimeParseEntry(text=e["text"], ts=datetime.strptime(e["ref_time"], "%Y-%m-%dT%H:%M:%S"), gold=CC.parse_nb_string(e["gold_parse"])) for e in raw]
-        key = "dataset/%d" % case["idx"][0]
+        key = "dataset/%d%s" % (case["idx"][0], "/repeated-text" if case.get("rep") else "")
         emitted = [(list(X), bool(y)) for X, y in CC.make_partial_rule_dataset(entries, scorer=DummyScorer(), timeout=0, max_stack_depth=10)]
-        if len(st["calls"]) != len(entries):
-            return {"st": "inconc", "msg": "tee saw %d streams for %d entries" % (len(st["calls"]), len(entries)), "key": key}
+        mon.events["builder_streams_consumed"] += len(st["calls"])
         expected = []
-        for e, rec in zip(entries, st["calls"]):
+        for e in entries:
             gv, gk = V.val(e.gold), type(e.gold).__name__
-            expected += _expected_samples(rec["cands"], lambda v, kind: kind == gk and v == gv)
+            cands = _own_candidates(L, e.text, e.ts, relative_match_len=1.0, timeout=0, max_stack_depth=10, scorer=DummyScorer(), latent_time=False)
+            expected += _expected_samples(cands, lambda v, kind: kind == gk and v == gv)
         mon.events["samples_checked"] += len(emitted)
         bad = _compare(emitted, expected, "make_partial_rule_dataset")
         npos = sum(1 for s in expected if s[1])
@@ -130,16 +149,51 @@ def run_case(case, ctx):
         for target, ts, tests in items:
             g = CC.parse_nb_string(target)
             gv, gk = V.val(g), type(g).__name__
+            tsd = datetime.strptime(ts, "%Y-%m-%dT%H:%M")
             for t in tests:
-                rec = st["calls"][ci]
-                ci += 1
-                expected += _expected_samples(rec["cands"], lambda v, kind: kind == gk and v == gv)
+                cands = _own_candidates(L, t, tsd, relative_match_len=1.0, timeout=0, max_stack_depth=0, scorer=DummyScorer(), latent_time=False)
+                expected += _expected_samples(cands, lambda v, kind: kind == gk and v == gv)
+        mon.events["builder_streams_consumed"] += len(st["calls"])
+        if True:
+            if True:
+                pass
         mon.events["samples_checked"] += len(emitted)
         bad = _compare(emitted, expected, "run_corpus")
         npos = sum(1 for s in expected if s[1])
         if bad:
             return C.viol("corpus/" + bad[0], bad[1], key, "corpus")
         return C.ok(key, "corpus", nt=npos > 0 and npos < len(expected), obs_={"targets": len(items), "samples": len(emitted), "positive": npos})
+    if k == "repeated":
+        # one reference-time dependent expression several times in ONE builder call, each with the gold that is right for ITS reference time
+        r = C.rng(ctx["seed"], "C17r", case["i"])
+        text = r.choice(["tomorrow", "heute", "friday", "morgen 18 Uhr", "übermorgen", "5.3.", "the 5th", "next monday", "yesterday", "am freitag um 8",
+                         "end of month", "monday 9-5", "tomorrow 8pm"])
+        tss = r.sample([datetime(2019, 12, 31, 8), datetime(2020, 2, 28, 23, 10), datetime(2021, 3, 10, 12, 43), datetime(2022, 7, 1), datetime(2024, 2, 29, 9)], 3)
+        entries = []
+        for ts in tss:
+            cands = [p for p in L.ctparse_gen(text, ts=ts, timeout=0, max_stack_depth=10, latent_time=False) if p is not None]
+            if not cands:
+                continue
+            best = max(cands, key=lambda p: p.score)
+            import copy
+            entries.append(CC.TimeParseEntry(text=text, ts=ts, gold=copy.deepcopy(best.resolution)))
+        key = "repeated/%d" % case["i"]
+        if len(entries) < 2:
+            return {"st": "skip", "sig": "expression does not resolve", "key": key, "cls": "repeated"}
+        st["calls"][:] = []
+        emitted = [(list(X), bool(y)) for X, y in CC.make_partial_rule_dataset(entries, scorer=DummyScorer(), timeout=0, max_stack_depth=10)]
+        expected = []
+        for e in entries:
+            gv, gk = V.val(e.gold), type(e.gold).__name__
+            cands = _own_candidates(L, e.text, e.ts, relative_match_len=1.0, timeout=0, max_stack_depth=10, scorer=DummyScorer(), latent_time=False)
+            expected += _expected_samples(cands, lambda v, kind: kind == gk and v == gv)
+        mon.events["samples_checked"] += len(emitted)
+        mon.events["builder_streams_consumed"] += len(st["calls"])
+        bad = _compare(emitted, expected, "make_partial_rule_dataset (same text %r under %d reference times in one call)" % (text, len(entries)))
+        npos = sum(1 for s_ in expected if s_[1])
+        if bad:
+            return C.viol("repeated/" + bad[0], bad[1], key, "repeated")
+        return C.ok(key, "repeated", nt=npos > 0, obs_={"text": text, "reference_times": [str(t) for t in tss], "samples": len(emitted), "positive": npos})
     if k == "generated":
         r = C.rng(ctx["seed"], "C17g", case["i"])
         ts = datetime(2021, 3, 10, 12, 43, 30)
@@ -174,10 +228,12 @@ def run_case(case, ctx):
         st["calls"][:] = []
         emitted = [(list(X), bool(y)) for X, y in CC.make_partial_rule_dataset(entries, scorer=DummyScorer(), timeout=0, max_stack_depth=10)]
         expected = []
-        for e, rec in zip(entries, st["calls"]):
+        for e in entries:
             gv, gk = V.val(e.gold), type(e.gold).__name__
-            expected += _expected_samples(rec["cands"], lambda v, kind: kind == gk and v == gv)
+            cands = _own_candidates(L, e.text, e.ts, relative_match_len=1.0, timeout=0, max_stack_depth=10, scorer=DummyScorer(), latent_time=False)
+            expected += _expected_samples(cands, lambda v, kind: kind == gk and v == gv)
         mon.events["samples_checked"] += len(emitted)
+        mon.events["builder_streams_consumed"] += len(st["calls"])
         bad = _compare(emitted, expected, "make_partial_rule_dataset (generated %s golds)" % want)
         npos = sum(1 for s in expected if s[1])
         if bad:
